@@ -2,7 +2,8 @@
 (* The node-level walk of FoxLookup computes, on the tree FoxRadix builds   *)
 (* for a set of patterns, exactly the selection FoxMatch documents: checked *)
 (* for every conflict-free table of at most GenMaxTab path patterns of the  *)
-(* pool and every generated path.                                           *)
+(* pool (its first GenEnumN entries combined exhaustively, plus the listed *)
+(* extra tables) and every generated path.                                 *)
 EXTENDS FoxLookup, FoxMatch, Gen_Lookup, TLC
 
 PToks == [i \in DOMAIN GenPool |-> Tokenize(GenPool[i])]
@@ -15,7 +16,7 @@ ConflictAt(a, b) ==
   ELSE Head(a).k = Head(b).k /\ Head(a).k \in {"par", "cat"}
 ConflictFreeIdx(S) == \A i, j \in S : ~ConflictAt(PToks[i], PToks[j])
 
-Tables == {S \in (SubsetsUpTo(ValidIdx, GenMaxTab) \ {{}}) \cup GenExtraTables : S \subseteq ValidIdx /\ ConflictFreeIdx(S)}
+Tables == {S \in (SubsetsUpTo(ValidIdx \cap (1..GenEnumN), GenMaxTab) \ {{}}) \cup GenExtraTables : S \subseteq ValidIdx /\ ConflictFreeIdx(S)}
 
 VARIABLES tab, done
 TableOf(S) == LET ids == SetToSortSeq(S, <) IN [i \in DOMAIN ids |-> [toks |-> PToks[ids[i]], pi |-> ids[i]]]
